@@ -1,6 +1,14 @@
+// Package c01: property C01 — a point is mapped to the one grid voxel that contains it.
+// Invokers of shape.GetExtendedSpatialIdsOnPoints / GetSpatialIdsOnPoints / object.NewPoint and the latitude-row hook,
+// and the seeded generator: domain edges, tile boundaries of the case's own zooms +- ulps, negative altitudes that are exact
+// multiples of the cell height, lists of 0..5 points, nil points, zooms outside 0..35, related consecutive calls.
 package c01
 
 import (
+	"math"
+	"strconv"
+	"strings"
+
 	"github.com/trajectoryjp/spatial_id_go/v4/common/object"
 	"github.com/trajectoryjp/spatial_id_go/v4/shape"
 
@@ -28,45 +36,258 @@ func fnNewPoint() *run.Fn {
 	}}
 }
 
-func storedPointVal(g *Gen) w.Val {
+// LatRow: the row that the code computes for a stored latitude at zoom h (replays of the interval certificates, meta step latcert).
+// Arguments: lat, h, certified real row k, and two flags saying that the real row is within the band of the boundary below / above.
+func fnLatRow() *run.Fn {
+	return &run.Fn{Name: "LatRow", Invoke: func(a []w.Val) w.Val {
+		id := shape.VerifGetHorizontalTileIdOnPoint(0, w.AsFlt(a[0]), w.AsInt(a[1]))
+		fs := strings.Split(id, "/")
+		if len(fs) != 3 {
+			return w.Err{V: w.S(id)}
+		}
+		y, err := strconv.ParseInt(fs[2], 10, 64)
+		if err != nil {
+			return w.Err{V: w.S(id)}
+		}
+		return w.I(y)
+	}}
+}
+
+// PointMoveSequence: ONE *object.Point is converted, moved with SetLon/SetLat/SetAlt and converted again through the same pointer
+// (a result cached per pointer would return the old tile). Arguments: stored triple 1, requested triple 2, h, v, spatial-ID form?
+// Result: [ids of the first call, ids of the second call, the triple stored after the move (SetLat truncates: read back)].
+func fnMove() *run.Fn {
+	return &run.Fn{Name: "PointMoveSequence", Invoke: func(a []w.Val) w.Val {
+		t1, t2 := w.AsList(a[0]), w.AsList(a[1])
+		h, v, sid := w.AsInt(a[2]), w.AsInt(a[3]), w.AsBool(a[4])
+		p := RawPoint(w.AsFlt(t1[0]), w.AsFlt(t1[1]), w.AsFlt(t1[2]))
+		conv := func() ([]string, error) {
+			if sid {
+				return shape.GetSpatialIdsOnPoints([]*object.Point{p}, h)
+			}
+			return shape.GetExtendedSpatialIdsOnPoints([]*object.Point{p}, h, v)
+		}
+		ids1, e1 := conv()
+		e2 := p.SetLon(w.AsFlt(t2[0]))
+		e3 := p.SetLat(w.AsFlt(t2[1]))
+		p.SetAlt(w.AsFlt(t2[2]))
+		stored := PointVal(p)
+		ids2, e4 := conv()
+		res := w.L(w.Strs(ids1), w.Strs(ids2), stored)
+		for _, e := range []error{e1, e2, e3, e4} {
+			if e != nil {
+				return w.Err{V: res}
+			}
+		}
+		return res
+	}}
+}
+
+// ---- generators aware of the case's zooms ----
+
+// lonFor: a longitude aimed at the column boundaries of zoom h.
+func lonFor(g *Gen, h int64) (float64, string) {
+	switch g.Intn(10) {
+	case 0: // domain edges, the fixed D11 input, the antimeridian neighbourhood
+		return g.PickF(180, -180, math.Nextafter(180, 0), 179.99999999999997, 179.99999999999994, math.Nextafter(-180, 0), 0, math.Copysign(0, -1)), "lon-edge"
+	case 1, 2: // a column boundary of this zoom, +- 0..2 ulps (k = 2^h is +180 itself)
+		n := int64(1) << uint(h)
+		k := g.Int63n(n + 1)
+		switch g.Intn(4) {
+		case 0:
+			k = 0
+		case 1:
+			k = n
+		case 2:
+			k = n - 1
+		}
+		return Ulp(float64(k)*360/math.Pow(2, float64(h))-180, g.Intn(5)-2), "lon-boundary"
+	case 3: // just below a boundary: inside the last nanometres of a column (finding class x_rounding lives here)
+		n := int64(1) << uint(h)
+		k := g.Int63n(n) + 1
+		return float64(k)*360/math.Pow(2, float64(h)) - 180 - g.R.Float64()*1e-13, "lon-near-boundary"
+	}
+	return g.Lon(), "lon-any"
+}
+
+// altFor: an altitude aimed at the layer boundaries of zoom v; negative exact multiples of the cell height are forced.
+func altFor(g *Gen, v int64) (float64, string) {
+	cell := math.Pow(2, 25-float64(v))
+	switch g.Intn(10) {
+	case 0:
+		return g.PickF(0, math.Copysign(0, -1), 33554432, -33554432, math.Nextafter(33554432, 0), math.Nextafter(-33554432, 0), -1, 1, -0.5, 0.5), "alt-edge"
+	case 1, 2: // negative exact multiple of the cell height: -k * 2^(25-v), k = 1, 2, ..., 2^v
+		n := int64(1) << uint(v)
+		k := g.Int63n(n) + 1
+		switch g.Intn(4) {
+		case 0:
+			k = 1
+		case 1:
+			k = n
+		case 2:
+			k = 2
+		}
+		return -float64(k) * cell, "alt-neg-multiple"
+	case 3: // any layer boundary +- 0..2 ulps, both signs
+		k := g.VIndex(v)
+		return Ulp(float64(k)*cell, g.Intn(5)-2), "alt-boundary"
+	case 4: // below ground, not on a boundary
+		return -g.R.Float64() * math.Min(33554432, cell*float64(1+g.Intn(5))), "alt-below-ground"
+	}
+	return g.Alt(), "alt-any"
+}
+
+func latFor(g *Gen) (float64, string) {
+	if g.Chance(0.15) {
+		return g.PickF(LatMax, -LatMax, 0, math.Copysign(0, -1), 85.05112877979, -85.05112877979, 85.0511287798+9e-11), "lat-edge"
+	}
+	return g.Lat(), "lat-any"
+}
+
+// pointFor: one stored point (built through NewPoint, so the latitude is a truncated one) as a wire value, with its tags.
+func pointFor(g *Gen, h, v int64) (w.Val, []string) {
 	for {
-		_, v, ok := StoredPoint(g.Lon(), g.Lat(), g.Alt())
+		lon, t1 := lonFor(g, h)
+		lat, t2 := latFor(g)
+		alt, t3 := altFor(g, v)
+		_, pv, ok := StoredPoint(lon, lat, alt)
 		if ok {
-			return v
+			return pv, []string{t1, t2, t3}
 		}
 	}
 }
 
+func pointsFor(g *Gen, h, v int64) (w.List, []string) {
+	k := 1
+	if g.Chance(0.3) {
+		k = g.Intn(6)
+	}
+	pts := make(w.List, k)
+	var tags []string
+	for j := range pts {
+		var t []string
+		pts[j], t = pointFor(g, h, v)
+		if j == 0 {
+			tags = t
+		}
+	}
+	return pts, append(tags, Tag("npoints=%d", k))
+}
+
+func zoomTags(h, v int64) []string { return []string{Tag("hzoom=%d", h), Tag("vzoom=%d", v)} }
+
 func init() {
-	Scale["C01"] = 6000
+	Scale["C01"] = 12000
 	Registry["C01"] = func(r *run.Runner, g *Gen, n int) {
 		MathOracles(r)
-		r.Register(fnPoints(), fnPointsSid(), fnNewPoint())
-		for i := 0; i < n; i++ {
-			k := 1
-			if g.Chance(0.3) {
-				k = g.Intn(5)
-			}
-			pts := make(w.List, k)
-			for j := range pts {
-				pts[j] = storedPointVal(g)
-			}
+		r.Register(fnPoints(), fnPointsSid(), fnNewPoint(), fnLatRow(), fnMove())
+		ext := func(pts w.Val, h, v int64, triv bool, tags ...string) {
+			r.Run(run.Case{Prop: "C01", Fn: "GetExtendedSpatialIdsOnPoints", Tags: append(zoomTags(h, v), tags...), Trivial: triv,
+				Args: []w.Val{pts, w.I(h), w.I(v)}})
+		}
+		sid := func(pts w.Val, z int64, triv bool, tags ...string) {
+			r.Run(run.Case{Prop: "C01", Fn: "GetSpatialIdsOnPoints", Tags: append(zoomTags(z, z), append(tags, "sid")...), Trivial: triv,
+				Args: []w.Val{pts, w.I(z), w.I(z)}})
+		}
+		for i := 0; i < n; {
 			h, v := g.Zoom(), g.Zoom()
-			tags := []string{Tag("hzoom=%d", h), Tag("vzoom=%d", v), Tag("npoints=%d", k)}
+			kind := g.Intn(1000)
 			switch {
-			case i%40 == 7: // recorded finding class: denormal altitudes
-				_, pv, ok := StoredPoint(g.Lon(), g.Lat(), g.AltDenormal())
+			case kind < 25: // recorded finding class: denormal altitudes (kept out of the main stream)
+				lon, _ := lonFor(g, h)
+				_, pv, ok := StoredPoint(lon, g.Lat(), g.AltDenormal())
 				if !ok {
 					continue
 				}
-				r.Run(run.Case{Prop: "C01", Fn: "GetExtendedSpatialIdsOnPoints", Tags: append(tags, "denormal-alt"),
-					Args: []w.Val{w.L(pv), w.I(h), w.I(v)}})
-			case i%7 == 3:
-				r.Run(run.Case{Prop: "C01", Fn: "GetSpatialIdsOnPoints", Tags: append(tags, "sid"), Trivial: k == 0,
-					Args: []w.Val{pts, w.I(h), w.I(h)}})
+				ext(w.L(pv), h, v, false, "denormal-alt")
+				i++
+			case kind < 65: // malformed: zoom outside 0..35 or a nil point in the list => error
+				pts, tags := pointsFor(g, h, v)
+				switch g.Intn(4) {
+				case 0:
+					bad := g.Pick(-1, 36, 37, 100, -36, math.MinInt64, math.MaxInt64)
+					if g.Chance(0.5) {
+						ext(pts, bad, v, false, append(tags, "bad-hzoom")...)
+					} else {
+						ext(pts, h, bad, false, append(tags, "bad-vzoom")...)
+					}
+				case 1:
+					sid(pts, g.Pick(-1, 36, 64, -35), false, append(tags, "bad-zoom")...)
+				default:
+					at := g.Intn(len(pts) + 1)
+					withNil := append(append(append(w.List{}, pts[:at]...), w.Nil{}), pts[at:]...)
+					if g.Chance(0.3) {
+						sid(withNil, h, false, append(tags, "nil-point")...)
+					} else {
+						ext(withNil, h, v, false, append(tags, "nil-point")...)
+					}
+				}
+				i++
+			case kind < 115: // NewPoint itself: truncation of the latitude, refusal outside the limits
+				lon, lat, alt := g.Lon(), g.Lat(), g.Alt()
+				tag := "newpoint"
+				switch g.Intn(8) {
+				case 0:
+					lat = g.PickF(12.9086804579, -62.502467986899994, 85.05112877989, -85.05112877989, 85.0511287799, -85.0511287799, 90, -90)
+					tag = "newpoint-lat-edge"
+				case 1:
+					lon = g.PickF(180.00000000000003, -180.00000000000003, 181, -360, 180, -180)
+					tag = "newpoint-lon-edge"
+				case 2:
+					lat = math.Round(lat*1e10) / 1e10 // a ten-decimal latitude, as users type them
+					tag = "newpoint-lat-10dec"
+				}
+				r.Run(run.Case{Prop: "C01", Fn: "NewPoint", Tags: []string{tag}, Args: []w.Val{w.F(lon), w.F(lat), w.F(alt)}})
+				i++
+			case kind < 130 && i+7 <= n: // related consecutive calls (7 cases each, about 10 % of all cases): the same points at other zooms, the identical call twice, both notations
+				pts, tags := pointsFor(g, h, v)
+				tags = append(tags, "sequence")
+				triv := len(pts) == 0
+				ext(pts, h, v, triv, tags...)
+				ext(pts, h, v, triv, tags...) // identical call again
+				h2, v2 := g.Zoom(), g.Zoom()
+				ext(pts, h2, v, triv, tags...) // only the horizontal zoom changed
+				ext(pts, h2, v2, triv, tags...) // then only the vertical zoom
+				sid(pts, h, triv, tags...)
+				sid(pts, v2, triv, tags...)
+				ext(pts, h, v, triv, tags...) // and back to the first call
+				i += 7
+			case kind < 165: // the same *object.Point converted, moved, converted again (both notations)
+				if h > 35 || v > 35 {
+					continue
+				}
+				p1, tags := pointFor(g, h, v)
+				var lon2, lat2, alt2 float64
+				switch g.Intn(4) {
+				case 0: // moved only vertically / only horizontally
+					t := w.AsList(p1)
+					lon2, lat2, alt2 = w.AsFlt(t[0]), w.AsFlt(t[1]), g.Alt()
+				case 1:
+					t := w.AsList(p1)
+					lon2, lat2, alt2 = g.Lon(), g.Lat(), w.AsFlt(t[2])
+				default:
+					lon2, _ = lonFor(g, h)
+					lat2, _ = latFor(g)
+					alt2, _ = altFor(g, v)
+				}
+				if _, _, ok := StoredPoint(lon2, lat2, alt2); !ok {
+					continue
+				}
+				sidForm := g.Chance(0.3)
+				if sidForm {
+					v = h
+				}
+				r.Run(run.Case{Prop: "C01", Fn: "PointMoveSequence", Tags: append(append(zoomTags(h, v), tags...), "move-sequence"),
+					Args: []w.Val{p1, w.L(w.F(lon2), w.F(lat2), w.F(alt2)), w.I(h), w.I(v), w.B(sidForm)}})
+				i++
+			case kind < 280:
+				pts, tags := pointsFor(g, h, h)
+				sid(pts, h, len(pts) == 0, tags...)
+				i++
 			default:
-				r.Run(run.Case{Prop: "C01", Fn: "GetExtendedSpatialIdsOnPoints", Tags: tags, Trivial: k == 0,
-					Args: []w.Val{pts, w.I(h), w.I(v)}})
+				pts, tags := pointsFor(g, h, v)
+				ext(pts, h, v, len(pts) == 0, tags...)
+				i++
 			}
 		}
 	}
